@@ -667,7 +667,8 @@ class SeqKind(Kind):
     rule = ('2..4 calls on the same object(s): one or two HammingWeight instances (nb_words 1..4), one Monobit / Value instance, the five '
             'discriminant functions, or a HammingWeight + Monobit + Value + discriminants interleaved; instances of equal and of different '
             'dtypes; same and different shapes, axes, values, layouts, the very same input ndarray again (same content, or rewritten in '
-            'place by the caller), calls the code refuses in between; every result is read right after its call AND again after all later calls, both must equal the '
+            'place by the caller), calls the code refuses in between; public attributes re-assigned between calls (HammingWeight.nb_words, '
+            '.expected_dtype, Monobit.bit: each call is specified with the attribute values current at that call); every result is read right after its call AND again after all later calls, both must equal the '
             'specification of their own call; every input is re-read after the last call and must hold what the caller wrote last; '
             'non-trivial = at least two accepted calls')
 
@@ -718,11 +719,19 @@ class SeqKind(Kind):
     def _rand_seq(self, rng, objs, nsteps):
         """Random calls on the given objects: new arrays, shapes seen before, the same ndarray again (same / rewritten content), refusals."""
         steps, shapes = [], []
+        cur = [dict(o) for o in objs]        # attribute values of the instances at this point of the sequence
         mode = lambda: 'C' if rng.random() < 0.6 else rng.choice(MODES)
         for _ in range(nsteps):
             oi = rng.randrange(len(objs))
-            obj = objs[oi]
+            obj = cur[oi]
             m = obj['m']
+            if steps and m in ('hw', 'mono') and rng.random() < 0.3:     # the caller re-assigns a public attribute between two calls
+                if m == 'mono':
+                    obj['bit'] = rng.choice([b for b in (0, 1, 3, 7, 8) if b != obj['bit']])
+                elif not obj.get('swap') and rng.random() < 0.25:
+                    obj['dtype'] = rng.choice([d for d in ('uint8', 'uint16', 'uint32', 'uint64') if d != obj['dtype']])
+                else:
+                    obj['k'] = rng.choice([k for k in (1, 2, 3, 4) if k != obj['k']])
             kmin = obj.get('k', 1)
 
             def params():
@@ -778,6 +787,24 @@ class SeqKind(Kind):
             steps.append(dict(_mk_call(rng, m, shape, axis, lay, **params()), obj=oi))
         return {'objs': objs, 'steps': _norm_steps(steps)}
 
+    @staticmethod
+    def _reassigned(case):
+        """Indices of the calls made after a public attribute of their instance was re-assigned (nb_words / expected_dtype / bit)."""
+        cur = [dict(o) for o in case['objs']]
+        out = []
+        for i, st in enumerate(case['steps']):
+            o = cur[st['obj']]
+            ch = False
+            for f in (('k', 'dtype') if st['m'] == 'hw' and o['m'] == 'hw' else (('bit',) if st['m'] == 'mono' and o['m'] == 'mono' else ())):
+                if f == 'dtype' and st.get('refuse'):
+                    continue
+                if o.get(f) != st.get(f):
+                    o[f] = st[f]
+                    ch = True
+            if ch:
+                out.append(i)
+        return out
+
     def gen(self, rng, tier):
         quick = tier == 'quick'
         # deterministic block: same instance, same shape, 2..3 calls (per dtype, nb_words 1..3, first / last axis)
@@ -790,6 +817,16 @@ class SeqKind(Kind):
             yield self._hw_seq(rng, dt, [2], [(0, [2, 4], -1, 'C'), ('refuse', 0), (0, [2, 4], -1, 'C')])
             yield self._hw_seq(rng, dt, [2, 2], [(0, [2, 4], -1, 'C'), (1, [2, 4], -1, 'C'), (0, [2, 4], -1, 'C'), (1, [2, 4], -1, 'C')])
             yield self._hw_seq(rng, dt, [2], [(0, [4, 3], 0, 'C'), ('again', 0), (0, [4, 3], 0, 'F')])
+        # public attributes re-assigned between calls: nb_words 1 -> 4 -> 1, 4 -> 1 -> 4, 2 -> 3 -> 2; expected_dtype; Monobit.bit
+        for dt in ('uint8', 'uint16', 'uint32', 'uint64'):
+            for k0, k1 in ((1, 4), (4, 1), (2, 3)):
+                for shape, axis in (([2, 8], -1), ([8, 2], 0)):
+                    yield {'objs': [{'m': 'hw', 'dtype': dt, 'k': k0, 'swap': False}],
+                           'steps': [dict(_mk_call(rng, 'hw', shape, axis, None, dtype=dt, k=k), obj=0) for k in (k0, k1, k0)]}
+        yield {'objs': [{'m': 'hw', 'dtype': 'uint8', 'k': 2, 'swap': False}],
+               'steps': [dict(_mk_call(rng, 'hw', [2, 4], -1, None, dtype=dt, k=2), obj=0) for dt in ('uint8', 'uint16', 'uint64', 'uint8')]}
+        yield {'objs': [{'m': 'mono', 'bit': 0}],
+               'steps': [dict(_mk_call(rng, 'mono', [2, 5], -1, None, bit=b, dtype='uint16'), obj=0) for b in (0, 8, 3, 0)]}
         # two instances of different dtypes, same output shape
         yield self._hw_seq(rng, ['uint8', 'uint32'], [2, 2], [(0, [2, 4], -1, 'C'), (1, [2, 4], -1, 'C'), (0, [2, 4], -1, 'C'), (1, [2, 4], -1, 'C')])
         yield self._hw_seq(rng, ['uint64', 'uint16'], [1, 1], [(0, [3, 3], 0, 'C'), (1, [3, 3], 0, 'F'), (0, [3, 3], 0, 'F'), (1, [3, 3], 0, 'C')])
@@ -844,6 +881,15 @@ class SeqKind(Kind):
                     a[...] = np.array(st['values'], dtype=np.dtype(st['dtype'])).reshape(st['shape'])
                     content[id(a)] = st['values']
             arrays.append(a)
+            ob, spec = objs[st['obj']], case['objs'][st['obj']]
+            if st['m'] == 'hw' and spec['m'] == 'hw':            # each call uses the attribute values current at the call
+                if ob.nb_words != st['k']:
+                    ob.nb_words = st['k']
+                want = _dtype(st['dtype'], {'swap': spec.get('swap', False)})
+                if not st.get('refuse') and ob.expected_dtype != want:
+                    ob.expected_dtype = want
+            elif st['m'] == 'mono' and spec['m'] == 'mono' and ob.bit != st['bit']:
+                ob.bit = st['bit']
             try:
                 r = _invoke(objs[st['obj']], st, a)
             except Exception as e:      # noqa: an exception of the implementation is an observation
@@ -888,6 +934,7 @@ class SeqKind(Kind):
                 'repeated_shape': len(set(sh)) < len(sh), 'refused_call': any(st.get('refuse') for st in case['steps']),
                 'same_ndarray_again': any(st.get('reuse_input') is not None for st in case['steps']),
                 'rewritten_in_place': any(st.get('mutate') for st in case['steps']),
+                'attribute_reassigned': bool(self._reassigned(case)),
                 'kinds_of_objects': len({o['m'] for o in case['objs']}), 'dtypes_of_instances': len({o.get('dtype') for o in case['objs']})}
 
     def tags(self, case, obs):
@@ -1152,4 +1199,109 @@ class DiscLongKind(Kind):
             yield dict(case, lay=None)
 
 
-KINDS = [HwKind(), MonoKind(), ValueKind(), DiscKind(), LayoutKind(), SeqKind(), HwLargeKind(), DiscLongKind()]
+class DiscBlockKind(Kind):
+    name = 'disc_block_lanes'
+    header = HDR2
+    case_type = 'disc_lanes_case'
+    check_fn = 'disc_lanes_check'
+    explain_fn = 'disc_lanes_expected'
+    shard = 4
+    rule = ('the five discriminants on lanes of 4095 / 4096 / 4097 / 8192 / 8193 / 12289 entries along the first or the last axis (3 lanes per '
+            'array): one whole aligned block of 256 .. 4096 entries NaN (first, middle, last block; the rest valid), two NaN blocks, scattered NaN, '
+            'all NaN, no NaN; the extreme placed inside / outside the block next to the NaN block; integer values whose partial sums are exact; '
+            'lanes run-length encoded, expanded inside Coq; non-trivial = a lane has both NaN and valid entries')
+
+    RUNMAX = 4096
+
+    def _lane(self, rng, L, big, pattern):
+        lane = []
+        while len(lane) < L:
+            n = min(L - len(lane), rng.choice([1, 3, 64, 500, 1000, 2048, 4096]))
+            lane += [float(rng.randint(-big, big))] * n
+        for _ in range(2):
+            lane[rng.randrange(L)] = float(rng.choice([big + 1, -(big + 1)]))
+        nan = float('nan')
+        if pattern in ('block0', 'blockmid', 'blocklast', 'twoblocks'):
+            B = 4096 if rng.random() < 0.6 else rng.choice([256, 512, 1024, 2048])
+            nb = (L + B - 1) // B
+            which = {'block0': [0], 'blockmid': [nb // 2], 'blocklast': [nb - 1], 'twoblocks': sorted({0, nb - 1})}[pattern]
+            if nb == 1:
+                which = []
+                lane[0:L - 1] = [nan] * (L - 1)       # a single (partial) block: all NaN but the last entry
+            for b in which:
+                lane[b * B:(b + 1) * B] = [nan] * len(lane[b * B:(b + 1) * B])
+        elif pattern == 'scattered':
+            for _ in range(rng.randint(1, 40)):
+                lane[rng.randrange(L)] = nan
+        elif pattern == 'allnan':
+            lane = [nan] * L
+        return lane
+
+    def gen(self, rng, tier):
+        quick = tier == 'quick'
+        pats = ['block0', 'blockmid', 'blocklast', 'twoblocks', 'scattered', 'allnan', 'clean']
+        n = 0
+        for rep in range(1 if quick else 4):
+            for op, _ in OPS:
+                for L in (4095, 4096, 4097, 8192, 8193, 12289):
+                    for lane_axis in (0, 1):
+                        dt = rng.choice(['float32', 'float64'])
+                        big = 1000 if dt == 'float32' else rng.choice([1000, 1 << 30])
+                        block = pats[n % 3]                 # every case has a whole-block lane: first / middle / last in turn
+                        n += 1
+                        lanes = [self._lane(rng, L, big, p) for p in (block, rng.choice(pats[3:]), rng.choice(pats))]
+                        rng.shuffle(lanes)
+                        lay = {'mode': 'F', 'perm': [1, 0]} if rng.random() < 0.25 else None
+                        yield {'op': op, 'dtype': dt, 'lane_axis': lane_axis, 'lanes': [_rle(l) for l in lanes], 'lay': lay}
+
+    def run(self, case):
+        lanes = [_unrle(r) for r in case['lanes']]
+        L = len(lanes[0])
+        if case['lane_axis'] == 0:
+            shape, flat = [L, len(lanes)], [lanes[c][j] for j in range(L) for c in range(len(lanes))]
+        else:
+            shape, flat = [len(lanes), L], [v for lane in lanes for v in lane]
+        a = _build(flat, case['dtype'], shape, case.get('lay'))
+        r = _invoke(None, {'m': 'disc', 'op': case['op'], 'axis': case['lane_axis'] if case['lane_axis'] == 0 else -1}, a)
+        return {'shape': list(r.shape), 'values': _fflat(r), 'input_unchanged': _same(_fflat(a), flat)}
+
+    def coq(self, case, obs):
+        def runs(rs):
+            out = []
+            for v, n in rs:             # nat literals stay small
+                while n > 0:
+                    out.append(C.coq_pair(core.float_to_coq(v), C.coq_nat(min(n, self.RUNMAX))))
+                    n -= self.RUNMAX
+            return '[' + '; '.join(out) + ']'
+        return '{| dl_op := %s; dl_lanes := %s; dl_obs_shape := %s; dl_obs := %s |}' % (
+            dict(OPS)[case['op']], C.coq_list(case['lanes'], runs), C.coq_list(obs.get('shape', []), C.coq_nat),
+            C.coq_list(obs.get('values', []), core.float_to_coq))
+
+    def oracle(self, case, obs):
+        if 'raised' in obs:
+            return f'{case["op"]} on {case["dtype"]} lanes of {sum(n for _, n in case["lanes"][0])} raised {obs["raised"]}: {obs["msg"]}'
+        if not obs['input_unchanged']:
+            return 'input array modified'
+        return None
+
+    def nontrivial(self, case, obs):
+        return any(any(v != v for v, _ in r) and any(v == v for v, _ in r) for r in case['lanes'])
+
+    def features(self, case, obs):
+        return {'op': case['op'], 'dtype': case['dtype'], 'lane': sum(n for _, n in case['lanes'][0]), 'lane_axis': case['lane_axis']}
+
+    def tags(self, case, obs):
+        return ['disc_block_lanes', 'disc_block_' + case['op']]
+
+    def sample(self, case, obs):
+        return {'case': dict(case, lanes=[r[:6] for r in case['lanes']]), 'observed': obs}
+
+    def shrink(self, case):
+        if len(case['lanes']) > 1:
+            for i in range(len(case['lanes'])):
+                yield dict(case, lanes=[case['lanes'][i]])
+        if case.get('lay'):
+            yield dict(case, lay=None)
+
+
+KINDS = [HwKind(), MonoKind(), ValueKind(), DiscKind(), LayoutKind(), SeqKind(), HwLargeKind(), DiscLongKind(), DiscBlockKind()]
